@@ -412,6 +412,17 @@ func (vm *VM) registerIndirectStructLocked(field *fieldVM) error {
 	return nil
 }
 
+// safeMapIndex is m.MapIndex(k), and no element for a key value that cannot be
+// hashed (a slice or a map inside an interface-typed key: it is in no map).
+func safeMapIndex(m, k reflect.Value) (v reflect.Value) {
+	defer func() {
+		if recover() != nil {
+			v = reflect.Value{}
+		}
+	}()
+	return m.MapIndex(k)
+}
+
 func appendDistinct(a []*fieldVM, i *fieldVM) []*fieldVM {
 	has := false
 	for _, e := range a {
@@ -1115,7 +1126,7 @@ func (t *TagExpr) getValue(fieldSelector string, subFields []interface{}) (v int
 			if !k.IsValid() {
 				return nil
 			}
-			vv = vv.MapIndex(k)
+			vv = safeMapIndex(vv, k)
 		case reflect.Struct:
 			if float, ok := k.(float64); ok {
 				idx := int(float)
